@@ -592,7 +592,7 @@ func (fx *FnExec) havocArg(st *State, a ssa.Value, t Term, lv *LValue) {
 			st.assumeWF(nv, lv.typ)
 		}
 	case *types.Slice:
-		es := fx.sortOf(u.Elem())
+		es := fx.elemSort(u.Elem())
 		mn, ms := "Mem."+sanitize(es), "(Array Int "+arrOf(es)+")"
 		h := st.heapGet(mn, ms)
 		nv := fx.freshConst("havocmem", arrOf(es))
@@ -679,14 +679,44 @@ func (fx *FnExec) applyContract(st *State, fr *frame, tgt callTarget, sig *types
 		fx.monitorUnlock(st, fr, site, cc, args, ordName)
 	}
 
-	// requires
-	for i, c := range fc.Requires {
-		v, err := env.safeEval(c.Expr)
+	// requires. For `go`, the spawned thread starts with no thread-local
+	// resources except the transferred ones: its requires is evaluated in that
+	// view (e.g. it holds no lock even though the spawner does).
+	reqEnv := env
+	if mode == "go" {
+		view := st.clone()
+		for _, name := range sortedKeys(fx.P.Specs.Ghosts) {
+			g := fx.P.Specs.Ghosts[name]
+			if g.ThreadLocal {
+				view.heapSet("ghost."+name, fx.ghostSort(g), fx.zeroGhost(g))
+			}
+		}
+		venv := *env
+		venv.st = view
+		for _, tr := range fc.Transfers {
+			amt, err := env.safeEval(tr.Amount)
+			if err != nil {
+				panic(fmt.Sprintf("%s:%d: %v", fc.File, fc.Line, err))
+			}
+			fx.assignGhost(view, &venv, tr.Ghost, amt.t)
+		}
+		reqEnv = &venv
+	}
+	for i, c := range append(append([]Clause{}, fc.Captures...), fc.Requires...) {
+		if mode != "go" && i < len(fc.Captures) {
+			continue
+		}
+		v, err := reqEnv.safeEval(c.Expr)
 		if err != nil {
 			panic(fmt.Sprintf("%s:%d: %v", c.File, c.Line, err))
 		}
-		fx.emit(st, fr, "requires", ordName+"/"+clauseName(c, i), v.t, c.Props, c.Src)
-		st.assume(v.t)
+		if mode == "go" && i < len(fc.Captures) {
+			continue // captures were checked where the closure was created
+		}
+		fx.emit(st, fr, "requires", ordName+"/"+clauseName(c, i-len(fc.Captures)), v.t, c.Props, c.Src)
+		if mode != "go" {
+			st.assume(v.t)
+		}
 	}
 	// default: pointer receivers are non-nil
 	if tgt.fn != nil && tgt.fn.Signature.Recv() != nil && !fc.NilRecv && len(args.terms) > 0 {
@@ -964,7 +994,7 @@ func (fx *FnExec) doBuiltin(st *State, fr *frame, x *ssa.Call, b *ssa.Builtin) {
 		st.ghostStore("chanclosed", "Bool", c, "true")
 	case "copy":
 		dst, src := arg(0), arg(1)
-		es := fx.sortOf(cc.Args[0].Type().Underlying().(*types.Slice).Elem())
+		es := fx.elemSort(cc.Args[0].Type().Underlying().(*types.Slice).Elem())
 		n := fx.freshConst("copy.n", "Int")
 		srcLen := "(slen " + src + ")"
 		srcAt := func(i string) string {
@@ -1007,7 +1037,7 @@ func (fx *FnExec) doAppend(st *State, fr *frame, x *ssa.Call) {
 	s := st.val(cc.Args[0])
 	t := st.val(cc.Args[1])
 	et := x.Type().Underlying().(*types.Slice).Elem()
-	es := fx.sortOf(et)
+	es := fx.elemSort(et)
 	mn, ms := "Mem."+sanitize(es), "(Array Int "+arrOf(es)+")"
 	mem := st.heapGet(mn, ms)
 	ls := "(slen " + s + ")"
